@@ -55,8 +55,8 @@ CLAIMS = {
     "C16": ("exploration", "status-sequence automaton + (tx, block) truthfulness + bounded completion",
             "fetch_header / fetch_transaction / get_transaction calls interleaved with answers, stalls, disconnects, indexing and forks; per hash the status sequence must follow added -> fetching -> fetched | not_found(re-add), committed answers must name a stored header whose block contains the transaction, and fetches complete within a bound once faults stop.",
             "DESIGN §3 C16"),
-    "C17": ("fault_enumeration", "a second real thread started while the first is parked before write k; outcome in {A;B, B;A}",
-            "For generated sync histories, every storage write boundary and every intent to take the matched-blocks lock k of a protocol handler, timer or RPC call A (SendBlock indexing, proof commit with rollback, filter batches, set_scripts, ...) and each of thirteen operations B - nine RPC calls (five set_scripts variants, get_scripts, get_cells, get_transactions, get_cells_capacity) and four honest peer messages handled by a second handler instance of ANOTHER protocol that shares the store and the peers (SendLastState, next BlockFilters batch, SendBlock of a matched block, SendLastStateProof answering the outstanding request), as the protocol tasks of the real process run concurrently: the history is executed three times identically up to A - B right before A, B right after A, and B started on a second OS thread while A is parked before write k (the simulator waits until B either finishes, i.e. ran inside A, or is seen waiting for a lock A holds, then releases A). The raw keyspace, script set, filter progress and in-memory matched-blocks map of the concurrent execution must equal one of the two serial ones, B's answer must be one of its two serial answers, and both threads must finish. For the reader operations a further execution parks the reader thread inside its query (at one of its iteration hooks) while A and 0 / 25 / 50 further events of the history run, then lets it finish: its answer must be its answer before or after that span (index and tip from one point in time). One case in five uses three threads: B is itself parked before one of its own boundaries while a third operation C runs, and the outcome must equal one of the six serial orders of A, B and C. Who runs is fixed by the case; a randomized scheduler over 3-4 threads was not built.",
+    "C17": ("fault_enumeration", "real threads parked at intercepted write / lock / iteration points: every (A, boundary k, B) pairing plus seeded random 3-4-thread schedules; outcome in the serial orders",
+            "For generated sync histories, every storage write boundary and every intent to take the matched-blocks lock k of a protocol handler, timer or RPC call A (SendBlock indexing, proof commit with rollback, filter batches, set_scripts, ...) and each of thirteen operations B - nine RPC calls (five set_scripts variants, get_scripts, get_cells, get_transactions, get_cells_capacity) and four honest peer messages handled by a second handler instance of ANOTHER protocol that shares the store and the peers (SendLastState, next BlockFilters batch, SendBlock of a matched block, SendLastStateProof answering the outstanding request), as the protocol tasks of the real process run concurrently: the history is executed three times identically up to A - B right before A, B right after A, and B started on a second OS thread while A is parked before write k (the simulator waits until B either finishes, i.e. ran inside A, or is seen waiting for a lock A holds, then releases A). The raw keyspace, script set, filter progress and in-memory matched-blocks map of the concurrent execution must equal one of the two serial ones, B's answer must be one of its two serial answers, and both threads must finish. For the reader operations a further execution parks the reader thread inside its query (at one of its iteration hooks) while A and 0 / 25 / 50 further events of the history run, then lets it finish: its answer must be its answer before or after that span (index and tip from one point in time). One case in six uses three threads with a fixed nesting: B is itself parked before one of its own boundaries while a third operation C runs, and the outcome must equal one of the six serial orders of A, B and C. One case in six is a randomized multi-thread run: A, B, C and (half of the time) a fourth reader thread D all park at their start and at a seeded subset of their storage writes, lock intents and query iterations; a seeded scheduler (sim/src/sched.rs) releases one thread at a time, moves on when the released thread parks again, finishes or is seen blocked in the kernel, and reports a deadlock when nobody can be released; the outcome must equal one of the six serial orders of A, B, C.",
             "DESIGN §3 C17, §8.8"),
     "C18": ("exploration", "pool model + by-construction validity verdicts + once-per-peer announcements",
             "Valid transactions and invalidating mutations submitted through send_transaction / estimate_cycles with relay connects, ticks and GetRelayTransactions; success iff expected valid, rejected transactions leave no trace, pool is FIFO with limit 64, and every (peer id, hash) is announced at most once.",
